@@ -13,6 +13,11 @@ use triomphe::{
 pub trait Probe: Send + Sync {
     fn probe_id(&self) -> u32;
 }
+/// A subtrait, so that one allocation can be reached through two trait-object pointers with
+/// different vtables (direct cast vs. cast to the subtrait and upcast): same address, same
+/// allocation, different metadata.
+pub trait ProbeSub: Probe {}
+impl<T: Probe> ProbeSub for T {}
 
 /// Raw pointers are owners in transit; the simulator moves them between threads only through
 /// the mailbox (which provides the happens-before edge), so they may be Send.
